@@ -50,12 +50,25 @@ def py_part(ctx):
             continue
         if m != r:
             ctx.disagree('pybrace', {'s': s[:200]}, m[:300], r[:300])
-    # 2. the property on the implementation, judged by the live interpreter
+    # 2. the property on the implementation, judged by the live interpreter; the domain of C13_py_flat_formats
+    #    (flat fields, specs outside D24) is computed by the extracted model and tied here to the live reading
     verdicts = common.pmap('harness.fmt_pybrace', 'oracle', cs, per_case_timeout=5)
-    ctx.evaluations += len(verdicts)
-    for s, v in zip(cs, verdicts):
+    doms = common.run_driver(['pydomain ' + common.enc_str(s) for s in cs])
+    flats = common.pmap('harness.fmt_pybrace', 'live_flat', cs, per_case_timeout=5)
+    impl_by_s = {s: r for (line, s, m, r) in res}
+    ctx.evaluations += len(verdicts) + len(doms)
+    for s, v, d, lf in zip(cs, verdicts, doms, flats):
+        accepted = impl_by_s.get(s, '').startswith('ok')
+        if accepted and lf in ('flat', 'compound'):
+            ctx.count('domain:' + d)
+            if (d.startswith('flat=1')) != (lf == 'flat'):
+                ctx.disagree('flat-domain', {'s': s[:200]}, d, lf)
         if v is not None and v != 'timeout':   # a timeout is already reported by the first stream
-            ctx.fail(v[0], {'s': s[:200], 'parser': 'pybrace'}, v[1], finding=v[2])
+            kind, what, finding = v
+            if kind == 'py-accepted-not-formattable':
+                # inside the theorem's domain a formatting failure contradicts C13_py_flat_formats: never a known finding
+                finding = 'D24' if d == 'flat=1 guard=0' else None
+            ctx.fail(kind, {'s': s[:200], 'parser': 'pybrace', 'domain': d}, what, finding=finding)
     # 3. spec vs the live interpreter: the markup iterator, then formatting
     res = common.compare_parallel('harness.fmt_pybrace', 'live_markup', [('cpymarkup ' + common.enc_str(s), s) for s in cs], per_case_timeout=20)
     ctx.evaluations += len(res)
@@ -144,9 +157,10 @@ def check(ctx):
             ctx.fail('py-time', {'family': name, 'parser': 'pybrace', 'example': f(24)[:60]},
                      'pybrace.FormatString time is not linear on this family: ' + desc)
     return common.finish(
-        ctx, 'other', build, aud, TRUSTED, ASSUME,
-        explanation='Partial: perl-brace fully proved; python-brace inclusion theorems proved outside the recorded findings, the flat-fields formatting theorem only for the '
-                    'per-spec type sets; time of the real regex is measured on doubling families, not proved.',
+        ctx, 'proof', build, aud, TRUSTED, ASSUME,
+        explanation='Every functional clause is a Coq theorem about the models (perl-brace iff; python-brace inclusion both ways outside D25; own errors only; flat fields format '
+                    'successfully with the reported positions, names and types outside D24). The clause "in time linear in the length" is proved for the model scanners only; on the '
+                    'real re engine it is measured on doubling families, which no theorem here covers.',
         checker_cmd='tools/build.sh (coq_makefile + make: coqc on Props/C13.v) then coqc Audit_C13.v (Print Assumptions)',
         rule='python-brace: all strings of length <= %d over %r, every "{:spec}" with spec of length <= %d over a 20-character spec alphabet, random '
              'concatenations/mutations of field fragments, boundary numbers; on each: extracted model vs pybrace.FormatString (error class and argument, '
